@@ -118,7 +118,7 @@ func (un *Unit) execInstr(fr *Frame, st *State, in ssa.Instruction) {
 				un.bind(fr, in, Val{t: un.elemRef("(s_arr "+x.t+")", pos)})
 				return
 			}
-			un.bind(fr, in, Val{t: "0", place: &Place{comp: un.elemComp(xt.Elem()), keys: []string{"(s_arr " + x.t + ")", pos}, typ: xt.Elem()}})
+			un.bind(fr, in, Val{t: "0", place: &Place{comp: un.elemComp(xt.Elem()), keys: []string{"(s_arr " + x.t + ")", pos}, typ: xt.Elem(), elemOff: "(s_off " + x.t + ")", elemIdx: idx}})
 		case *types.Pointer: // pointer to array
 			at := xt.Elem().Underlying().(*types.Array)
 			un.boundsCheck(st, fr, idx, un.intConst(at.Len(), in.Index.Type()), in.Index.Type(), "index", in.Pos())
@@ -993,6 +993,8 @@ func (un *Unit) execRange(fr *Frame, st *State, in *ssa.Range) {
 	it := un.allocRef(st, "iter")
 	vis := un.comp("It_visited_"+sanitize(un.u.sortOf(mt.Key())), arraySort("Int", arraySort(un.u.sortOf(mt.Key()), "Bool")), "iter")
 	un.set(st, vis, sto(un.get(st, vis), fmt.Sprintf("((as const %s) false)", arraySort(un.u.sortOf(mt.Key()), "Bool")), it))
+	cnt := un.comp("It_count", arraySort("Int", "Int"), "iter")
+	un.set(st, cnt, sto(un.get(st, cnt), "0", it))
 	v := Val{t: it}
 	v.binds = []Val{x}
 	un.bind(fr, in, v)
@@ -1019,7 +1021,18 @@ func (un *Unit) execNext(fr *Frame, st *State, in *ssa.Next) {
 	qk := "qk!" + fmt.Sprint(un.u.fresh)
 	un.u.usesQuant = true
 	un.assume(st, implies(not(ok), or(eq(m.t, "0"), fmt.Sprintf("(forall ((%s %s)) (=> (select %s %s) (select %s %s)))", qk, ks, dom, qk, visited, qk))))
-	un.set(st, vis, sto(un.get(st, vis), "true", itv.t, k))
+	// the number of keys yielded so far; the iteration ends exactly when it equals the map's size
+	cnt := un.comp("It_count", arraySort("Int", "Int"), "iter")
+	_, _, lc := un.mapComps(mt)
+	mlen := ite(eq(m.t, "0"), "0", sel(un.get(st, lc), m.t))
+	cur := sel(un.get(st, cnt), itv.t)
+	un.assume(st, implies(ok, "(< "+cur+" "+mlen+")"))
+	un.assume(st, implies(not(ok), eq(cur, mlen)))
+	// the position at which each key was yielded
+	idx := un.comp("It_index_"+sanitize(ks), arraySort("Int", arraySort(ks, "Int")), "iter")
+	un.set(st, idx, sto(un.get(st, idx), ite(ok, cur, sel(un.get(st, idx), itv.t, k)), itv.t, k))
+	un.set(st, cnt, sto(un.get(st, cnt), ite(ok, "(+ "+cur+" 1)", cur), itv.t))
+	un.set(st, vis, sto(un.get(st, vis), ite(ok, "true", sel(visited, k)), itv.t, k))
 	val := sel(un.get(st, vv), m.t, k)
 	un.assume(st, implies(ok, un.typeFacts(st, val, mt.Elem())))
 	un.bind(fr, in, Val{tuple: []Val{{t: ok, typ: types.Typ[types.Bool]}, {t: k, typ: mt.Key()}, {t: val, typ: mt.Elem()}}})
